@@ -2,8 +2,8 @@ F = "func.py"
 S = "sympy_objects.py"
 WITNESSES = [
     dict(id="c09-drop-target-guard", prop="C09", file=F, expect="R09a",
-         old="            if killable not in target_idx:\n                expr = expr.subs(killable, preferred)",
-         new="            if True:\n                expr = expr.subs(killable, preferred)"),
+         old="            if killable not in target_idx:\n                # both indices are contracted",
+         new="            if True:\n                # both indices are contracted"),
     dict(id="c09-drop-equal-info", prop="C09", file=F, expect="R09a",
          old="            elif preferred not in target_idx \\\n                    and d.indices_contain_equal_information:",
          new="            elif preferred not in target_idx:"),
@@ -42,11 +42,11 @@ WITNESSES = [
          old="""            preferred, killable = idx
             # try to remove killable
             if killable not in target_idx:
-                expr = expr.subs(killable, preferred)""",
+                # both indices are contracted""",
          new="""            preferred = idx[0]
             killable = idx[1]
             if not (killable in target_idx):
-                expr = expr.subs(killable, preferred)"""),
+                # both indices are contracted"""),
     dict(id="c09-ok-pk-refactor", prop="C09", file=S, expect=None,
          old="""        if spin1 == spin2:  # nn / aa / bb  -> equal information
             if space1 == space2 or space2 == "g":  # oo / vv / gg / og / vg
@@ -114,12 +114,15 @@ WITNESSES = [
             target_idx = [s for s, n in indices.items() if n == 1]"""),
     dict(id="c09-ok-extracted-decision", prop="C09", file=F, expect=None, edits=[
         ("def evaluate_deltas(expr, target_idx: str = None):",
-         """def _delta_substitution(delta, targets):
+         """def _delta_substitution(delta, targets, others):
     pair = delta.preferred_and_killable
     if pair is None:
         return None
     keep, kill = pair
     if kill not in targets:
+        if keep not in targets and not any(
+                o.has(keep) or o.has(kill) for o in others):
+            return None
         return kill, keep
     if keep not in targets and delta.indices_contain_equal_information:
         return keep, kill
@@ -133,6 +136,13 @@ def evaluate_deltas(expr, target_idx: str = None):"""),
             preferred, killable = idx
             # try to remove killable
             if killable not in target_idx:
+                # both indices are contracted and do only occur on the delta:
+                # sum_pq delta_pq gives the dimension of the space and not 1
+                # -> no index can be removed without loosing the sum
+                if preferred not in target_idx and not any(
+                        obj.has(preferred) or obj.has(killable)
+                        for obj in expr.args if obj is not d):
+                    continue
                 expr = expr.subs(killable, preferred)
                 if len(deltas) > 1:
                     return evaluate_deltas(expr, target_idx)
@@ -146,7 +156,8 @@ def evaluate_deltas(expr, target_idx: str = None):"""),
                 if len(deltas) > 1:
                     return evaluate_deltas(expr, target_idx)
         return expr""",
-         """            sub = _delta_substitution(d, target_idx)
+         """            sub = _delta_substitution(
+                d, target_idx, [obj for obj in expr.args if obj is not d])
             if sub is None:
                 continue
             expr = expr.subs(*sub)
@@ -228,6 +239,7 @@ def evaluate_deltas(expr, target_idx: str = None):"""),
             targets = [s for s, n in indices.items() if not n]"""),
         ("            target_idx = get_symbols(target_idx)\n", "            targets = get_symbols(target_idx)\n"),
         ("            if killable not in target_idx:\n", "            if killable not in targets:\n"),
+        ("                if preferred not in target_idx and not any(\n", "                if preferred not in targets and not any(\n"),
         ("            elif preferred not in target_idx \\\n", "            elif preferred not in targets \\\n"),
     ]),
     dict(id="c09-ok-targets-local-passed-down", prop="C09", file=F, expect=None, edits=[
@@ -238,6 +250,7 @@ def evaluate_deltas(expr, target_idx: str = None):"""),
             targets = [s for s, n in indices.items() if not n]"""),
         ("            target_idx = get_symbols(target_idx)\n", "            targets = get_symbols(target_idx)\n"),
         ("            if killable not in target_idx:\n", "            if killable not in targets:\n"),
+        ("                if preferred not in target_idx and not any(\n", "                if preferred not in targets and not any(\n"),
         ("            elif preferred not in target_idx \\\n", "            elif preferred not in targets \\\n"),
         ("""                expr = expr.subs(killable, preferred)
                 if len(deltas) > 1:
@@ -260,6 +273,7 @@ def evaluate_deltas(expr, target_idx: str = None):"""),
             target_idx = targets"""),
         ("            target_idx = get_symbols(target_idx)\n", "            targets = get_symbols(target_idx)\n"),
         ("            if killable not in target_idx:\n", "            if killable not in targets:\n"),
+        ("                if preferred not in target_idx and not any(\n", "                if preferred not in targets and not any(\n"),
         ("            elif preferred not in target_idx \\\n", "            elif preferred not in targets \\\n"),
     ]),
     # the restart goes through a local closure that captured the targets determined once
@@ -292,4 +306,64 @@ def evaluate_deltas(expr, target_idx: str = None):"""),
                 if len(deltas) > 1:
                     return restart(expr)"""),
     ]),
+    # ---- F30 (d75a3e8): a delta with two contracted indices that occur on no other object is kept
+    dict(id="c09-f30-revert", prop="C09", file=F, expect="R09c",
+         old="""                if preferred not in target_idx and not any(
+                        obj.has(preferred) or obj.has(killable)
+                        for obj in expr.args if obj is not d):
+                    continue
+""", new=""),
+    dict(id="c09-f30-ok-twin", prop="C09", file=F, expect=None,
+         old="""                if preferred not in target_idx and not any(
+                        obj.has(preferred) or obj.has(killable)
+                        for obj in expr.args if obj is not d):
+                    continue
+""",
+         new="""                elsewhere = set()
+                for obj in expr.args:
+                    if obj is not d:
+                        elsewhere |= obj.atoms(Index)
+                if not (preferred in target_idx or preferred in elsewhere
+                        or killable in elsewhere):
+                    continue
+"""),
+    # only one of the two indices is looked for elsewhere: delta_pq X_q with p, q contracted keeps its delta
+    dict(id="c09-f30-half-test", prop="C09", file=F, expect="R09c",
+         old="                        obj.has(preferred) or obj.has(killable)\n", new="                        obj.has(killable)\n"),
+    # ---- F29 (df7e47e): wicks hands the target indices of its input to evaluate_deltas
+    dict(id="c09-f29-revert", prop="C09", file=F, expect="R09d",
+         old="""                target = _indices_on_single_object(expr)
+                result = Add(*[
+                    evaluate_deltas(
+                        term, target_idx=target + [
+                            s for s in _indices_on_single_object(term)
+                            if s not in target
+                        ]
+                    ) for term in Add.make_args(result)
+                ])""",
+         new="""                result = evaluate_deltas(result)"""),
+    dict(id="c09-f29-ok-twin", prop="C09", file=F, expect=None,
+         old="""                target = _indices_on_single_object(expr)
+                result = Add(*[
+                    evaluate_deltas(
+                        term, target_idx=target + [
+                            s for s in _indices_on_single_object(term)
+                            if s not in target
+                        ]
+                    ) for term in Add.make_args(result)
+                ])""",
+         new="""                protected = set(_indices_on_single_object(expr))
+                terms = []
+                for term in Add.make_args(result):
+                    keep = protected | set(_indices_on_single_object(term))
+                    terms.append(evaluate_deltas(term, list(keep)))
+                result = Add(*terms)"""),
+    # the targets of the contracted term instead of those of the input: q of delta_pq delta_qi is on two deltas
+    dict(id="c09-f29-targets-of-result", prop="C09", file=F, expect="R09d",
+         old="                target = _indices_on_single_object(expr)\n", new="                target = _indices_on_single_object(result)\n"),
+    dict(id="c09-fock-drops-targets", prop="C09", file="expr_container.py", expect="R09d",
+         old="result = evaluate_deltas(self.sympy * delta, target_idx=target)", new="result = evaluate_deltas(self.sympy * delta)"),
+    dict(id="c09-fock-ok-positional", prop="C09", file="expr_container.py", expect=None,
+         old="result = evaluate_deltas(self.sympy * delta, target_idx=target)",
+         new="product = delta * self.sympy\n        result = evaluate_deltas(product, list(target))"),
 ]
